@@ -51,7 +51,7 @@
 (* the case's grammar must be LR(1) (a conflict reached during evaluation  *)
 (* is reported and the case is discarded by the orchestrator).             *)
 (***************************************************************************)
-EXTENDS CanonLR, SemVal, Cfg, Prec, Macro, Gen, TLC, Json, IOUtils
+EXTENDS CanonLR, SemVal, Cfg, Prec, Macro, Gen, Types, TLC, Json, IOUtils
 
 (* raw cases; those carrying cfg attributes mean their filtered grammar (Cfg.tla) *)
 Raw == JsonDeserialize(IOEnv.EVAL_CASES)
@@ -89,6 +89,11 @@ LR1Of == [k \in 1..NC |-> Evaluable(k) /\ ("fixed" \in DOMAIN Raw[k] \/ IsLR1(Ca
 ASSUME \A k \in 1..NC :
          PrintT("@@LR1 " \o ToJson([id |-> Cases[k].id, lr1 |-> LR1Of[k], evaluable |-> Evaluable(k),
                                     reduced |-> Evaluable(k) /\ Reduced(Cases[k].G, Lhs(Cases[k].G, Cases[k].sp))]))
+
+(* the documented types of the nonterminals (Types.tla), printed once per case *)
+ASSUME \A k \in 1..NC :
+         (Evaluable(k) /\ "kinds" \in DOMAIN Cases[k] /\ "fixed" \notin DOMAIN Raw[k]) =>
+            PrintT("@@TYPES " \o ToJson([id |-> Cases[k].id, types |-> TypesOf(Cases[k])]))
 
 Init == /\ c \in {k \in 1..NC : LR1Of[k]}
         /\ stk = << [I |-> InitSet(Cases[c].G, PreOf[c], Cases[c].sp), v |-> <<"bot">>, lo |-> 0, hi |-> 0, pend |-> <<>>] >>
